@@ -40,7 +40,44 @@ type vfC08Case struct {
 	Denied  []int    `json:"denied_values_first_40,omitempty"`
 	SeqHead string   `json:"sequence_first_60"`
 	deny    []bool
-	seq     [][2]int // (sid index, value)
+	Hostile int `json:"hostile_fragment_sets"`
+	seq     []vfC08Item
+}
+
+// vfC08Item is one datagram of the script: a plain message to one destination value, or a hostile
+// fragment set (Frags != nil): fragment f names destination Frags[f], fragments arrive in Order;
+// or an odd single datagram (OddCount 0/1 with OddID != 0); BadID: FragID >= FragCount (never completes).
+type vfC08Item struct {
+	Sid      int
+	Value    int
+	Frags    []int
+	Order    []int
+	Odd      bool
+	OddID    uint8
+	OddCount uint8
+	BadID    bool
+}
+
+func vfC08Perms(n int) [][]int {
+	var out [][]int
+	p := make([]int, n)
+	for i := range p {
+		p[i] = i
+	}
+	var rec func(int)
+	rec = func(i int) {
+		if i == n {
+			out = append(out, append([]int(nil), p...))
+			return
+		}
+		for j := i; j < n; j++ {
+			p[i], p[j] = p[j], p[i]
+			rec(i + 1)
+			p[i], p[j] = p[j], p[i]
+		}
+	}
+	rec(0)
+	return out
 }
 
 func vfC08AddrOf(v int, sid uint32) string {
@@ -66,7 +103,7 @@ func vfC08ValueOf(addr string) (int, bool) {
 }
 
 func vfC08Gen(r *rand.Rand, caseID string, idx int) *vfC08Case {
-	pats := []string{"uniform", "alternate", "fill-evict", "denied-first", "zipf", "mostly-denied-overflow", "allowed-first-overflow"}
+	pats := []string{"uniform", "alternate", "fill-evict", "denied-first", "zipf", "mostly-denied-overflow", "allowed-first-overflow", "hostile-frags"}
 	c := &vfC08Case{CaseID: caseID, Pattern: pats[idx%len(pats)]}
 	c.Values = 1 + r.Intn(600)
 	c.DenyPct = []int{5, 30, 50, 70, 95}[r.Intn(5)]
@@ -190,11 +227,80 @@ func vfC08Gen(r *rand.Rand, caseID string, idx int) *vfC08Case {
 		one = one[:2000]
 	}
 	c.Len = len(one)
-	// interleave the sessions: the second one walks the same sequence shifted
-	for i, v := range one {
-		c.seq = append(c.seq, [2]int{0, v})
-		if ns > 1 && i%3 != 0 {
-			c.seq = append(c.seq, [2]int{1, one[(i*7+3)%len(one)]})
+	hostile := func(sid int) vfC08Item {
+		c.Hostile++
+		switch r.Intn(8) {
+		case 0: // whole datagram with an odd header: FragCount 0/1 but FragID != 0
+			return vfC08Item{Sid: sid, Odd: true, OddID: uint8(1 + r.Intn(255)), OddCount: uint8(r.Intn(2)), Value: r.Intn(c.Values)}
+		case 1:
+			return vfC08Item{Sid: sid, BadID: true, Value: r.Intn(c.Values)}
+		}
+		n := 2 + r.Intn(2)
+		it := vfC08Item{Sid: sid, Frags: make([]int, n), Order: r.Perm(n)}
+		for f := range it.Frags {
+			if r.Intn(2) == 0 {
+				it.Frags[f] = anyOf(denied)
+			} else {
+				it.Frags[f] = anyOf(allowed)
+			}
+		}
+		return it
+	}
+	if c.Pattern == "hostile-frags" {
+		// systematic: for 2 and 3 fragments every allowed/denied assignment in every arrival order,
+		// then the odd headers; optionally before any socket exists (first datagram of the session)
+		c.seq = nil
+		if r.Intn(3) > 0 {
+			c.seq = append(c.seq, vfC08Item{Sid: 0, Value: anyOf(allowed)})
+		}
+		for n := 2; n <= 3; n++ {
+			for mask := 0; mask < 1<<n; mask++ {
+				for _, ord := range vfC08Perms(n) {
+					it := vfC08Item{Sid: 0, Frags: make([]int, n), Order: ord}
+					for f := 0; f < n; f++ {
+						if mask>>f&1 == 1 {
+							it.Frags[f] = anyOf(denied)
+						} else {
+							it.Frags[f] = anyOf(allowed)
+						}
+					}
+					c.Hostile++
+					c.seq = append(c.seq, it)
+					if r.Intn(4) == 0 {
+						c.seq = append(c.seq, vfC08Item{Sid: 0, Value: r.Intn(c.Values)})
+					}
+				}
+			}
+		}
+		for _, id := range []uint8{1, 2, 255} {
+			for _, cnt := range []uint8{0, 1} {
+				for _, l := range [][]int{allowed, denied} {
+					c.Hostile++
+					c.seq = append(c.seq, vfC08Item{Sid: 0, Odd: true, OddID: id, OddCount: cnt, Value: anyOf(l)})
+				}
+			}
+		}
+		c.seq = append(c.seq, vfC08Item{Sid: 0, BadID: true, Value: anyOf(denied)}, vfC08Item{Sid: 0, Value: anyOf(allowed)})
+		c.Hostile++
+		r.Shuffle(len(c.seq)-1, func(a, b int) {
+			if a > 0 && b > 0 {
+				c.seq[a], c.seq[b] = c.seq[b], c.seq[a]
+			}
+		})
+		ns = 1
+		c.Sids = c.Sids[:1]
+		c.Len = len(c.seq)
+	} else {
+		// interleave the sessions: the second one walks the same sequence shifted; hostile fragment
+		// sets are sprinkled in
+		for i, v := range one {
+			c.seq = append(c.seq, vfC08Item{Sid: 0, Value: v})
+			if ns > 1 && i%3 != 0 {
+				c.seq = append(c.seq, vfC08Item{Sid: 1, Value: one[(i*7+3)%len(one)]})
+			}
+			if r.Intn(25) == 0 {
+				c.seq = append(c.seq, hostile(r.Intn(ns)))
+			}
 		}
 	}
 	for i := 0; i < len(one) && i < 60; i++ {
@@ -240,13 +346,36 @@ func vfC08Run(t *testing.T, k *vfKit, c *vfC08Case, stackBuf []byte) {
 		return ok && v >= 0 && v < len(deny) && !deny[v]
 	}
 	w := vfC07RunBubble(t, plan, 10*time.Minute, stackBuf, func(w *vfC07World, sm *udpSessionManager) {
-		for i, sv := range c.seq {
-			sid := c.Sids[sv[0]]
+		for i, it := range c.seq {
+			sid := c.Sids[it.Sid]
 			no := i + 1
-			addr := vfC08AddrOf(sv[1], sid)
 			data := vfC07Payload(no, sid, 24+i%40)
-			w.Push(&protocol.UDPMessage{SessionID: sid, FragCount: 1, Addr: addr, Data: data}, no,
-				&vfC07Msg{No: no, Sid: sid, Addr: addr, Len: len(data), FragCount: 1})
+			full := &vfC07Msg{No: no, Sid: sid, Addr: vfC08AddrOf(it.Value, sid), Len: len(data), FragCount: 1}
+			switch {
+			case it.Frags != nil:
+				n := len(it.Frags)
+				full.FragCount = n
+				full.Addr = vfC08AddrOf(it.Frags[0], sid)
+				for _, v := range it.Frags {
+					full.Addrs = append(full.Addrs, vfC08AddrOf(v, sid))
+				}
+				chunk := (len(data) + n - 1) / n
+				for _, f := range it.Order {
+					lo, hi := f*chunk, (f+1)*chunk
+					if hi > len(data) {
+						hi = len(data)
+					}
+					w.Push(&protocol.UDPMessage{SessionID: sid, PacketID: uint16(no%65000) + 1, FragID: uint8(f), FragCount: uint8(n),
+						Addr: full.Addrs[f], Data: vfExact(data[lo:hi])}, no, full)
+				}
+			case it.Odd:
+				w.Push(&protocol.UDPMessage{SessionID: sid, PacketID: uint16(no%65000) + 1, FragID: it.OddID, FragCount: it.OddCount, Addr: full.Addr, Data: data}, no, full)
+			case it.BadID:
+				full.Undeliverable = true
+				w.Push(&protocol.UDPMessage{SessionID: sid, PacketID: uint16(no%65000) + 1, FragID: 3, FragCount: 2, Addr: full.Addr, Data: data}, no, full)
+			default:
+				w.Push(&protocol.UDPMessage{SessionID: sid, FragCount: 1, Addr: full.Addr, Data: data}, no, full)
+			}
 			if i%512 == 511 {
 				synctest.Wait()
 			}
@@ -285,6 +414,23 @@ func vfC08Run(t *testing.T, k *vfKit, c *vfC08Case, stackBuf []byte) {
 			if m == nil {
 				continue
 			}
+			if m.Addrs != nil || m.Undeliverable || e.Aux&0xff <= 1 && e.Aux>>8 != 0 {
+				// hostile fragment set / odd header: counted once, on its last datagram
+				last := true
+				for _, a := range ix.RecvOfNo[e.No] {
+					if a.Seq > e.Seq {
+						last = false
+					}
+				}
+				if last {
+					if written[e.No] != 0 {
+						k.Count("ev_hostile_forwarded_to_allowed", 1) // the policy oracle checked the destination
+					} else {
+						k.Count("ev_hostile_not_forwarded", 1)
+					}
+				}
+				continue
+			}
 			switch {
 			case plan.Policy(m.Addr) && written[e.No] != 0:
 				k.Count("ev_allowed_delivered", 1)
@@ -313,7 +459,7 @@ func vfC08Run(t *testing.T, k *vfKit, c *vfC08Case, stackBuf []byte) {
 		}
 		for no, m := range w.msgs {
 			rs, ok := recvSeq[no]
-			if !ok || m.Sid != s.sid || rs < first || rs >= end {
+			if !ok || m.Sid != s.sid || rs < first || rs >= end || m.Undeliverable {
 				continue
 			}
 			distinct[m.Addr] = true
